@@ -174,7 +174,8 @@ def read_checker(tree: ast.Module) -> dict:
             continue
         if blocked is not None:
             raise Shape('two Attribute tests in the checker')
-        body_raises = len(n.body) == 1 and isinstance(n.body[0], ast.Raise) and not n.orelse
+        body_raises = (n.body and isinstance(n.body[-1], ast.Raise) and not n.orelse
+                       and all(isinstance(x, ast.Assign) for x in n.body[:-1]))
         if not body_raises:
             raise Shape('Attribute test does not raise')
         alts = b.values if isinstance(b, ast.BoolOp) and isinstance(b.op, ast.Or) else [b]
